@@ -7,18 +7,26 @@ import AnsiProofs.Lemmas.StoreInv
   query, rendering, slice or concatenation raises."
 
   The statements are about *histories*: `Store.run {} ops` is the store after the script `ops`
-  (any finite list of the 21 operations of `AnsiModel/Store.lean`, with any arguments, failing
-  operations included — a failed operation leaves the store as it was).
+  (any finite list of the 30 operations of `AnsiModel/Store.lean`, with any arguments, failing
+  operations included — a failed operation leaves the store as it was).  The operations: `new`,
+  `copy`, `apply`, `remove`, `clear`, `slice`, `index`, `iadd`, `add`, `addStr`, `ljust`, `rjust`,
+  `center`, `assign`, `simplify`, `strip`, `removeprefix`, `removesuffix`, `replace`, `render`,
+  `find`, and (added later) `zfill`, `clip`, `join`, `fmatch` (`format_matching`), `unfmatch`
+  (`unformat_matching`), `splitPiece` (one piece of `split`/`rsplit`), `linePiece` (one element of
+  `splitlines`), `partPiece` (one component of `partition`/`rpartition`), `expandtabs`.
 
   * `StoreInv σ` (defined in `Lemmas/StoreInv.lean`, namespace `StoreL`):
       - every value of the store satisfies the history invariant `WF`
         (`WF.ok : replayOk x.fmts = true` is the library's self-check);
       - every setting identity in use is below the store's counter (`FreshFrom x σ.nid`);
       - an identity carries one text across the whole store (`CoherentPair x y` for all pairs).
-  * `inv_init`, `inv_step` (for EVERY constructor of `Op`, `replace` with its loop included),
+  * `inv_init`, `inv_step` (for EVERY constructor of `Op`; the loops of `replace`/`expandtabs`, of
+    `join` and of `format_matching`/`unformat_matching` included),
     `wf_reachable`, `reachable_wf`, `reachable_ok`.
   * `outcome_documented` — only `TypeError`/`ValueError`, `IndexError` only from an integer index;
-    sharper per-operation facts `never_fails`, `pad_outcome`, `index_outcome`, `render_plain`.
+    sharper per-operation facts `never_fails`, `pad_outcome`, `index_outcome`, `render_plain`,
+    `split_outcome`, `linePiece_range`, `partPiece_range`, `splitPiece_range`.
+  * `fmatch_spec` — what `format_matching` does to its receiver inside a history (C16 for the store).
   * `error_atomic` — restated from C08.
   * termination — see the comment in section 6.
 
@@ -36,7 +44,7 @@ open StoreL
 
 theorem inv_init : StoreInv {} := StoreL.inv_init
 
-/-! ## 2. every operation keeps the invariant (no exception: all 21 constructors of `Op`) -/
+/-! ## 2. every operation keeps the invariant (no exception: all 30 constructors of `Op`) -/
 
 theorem inv_step {σ : Store} (h : StoreInv σ) (op : Op) : StoreInv (σ.step op).1 :=
   StoreL.inv_step h op
@@ -102,16 +110,23 @@ theorem outcome_documented (σ : Store) (op : Op) :
     · exact Or.inr (Or.inr (Or.inr (Or.inr (Or.inr (Or.inr h)))))
 
 /-- `clear`, slices, `+=`, `+`, `+ str`, `assign_str`, `simplify`, `strip`/`lstrip`/`rstrip`,
-    `removeprefix`, `removesuffix` and `replace` never fail: on values of ANY store (reachable or
-    not) the outcome is success — `unbound` only says the script named a variable that does not
-    exist.  With `wf_reachable` this is "no later slice or concatenation raises". -/
+    `removeprefix`, `removesuffix`, `replace`, `zfill`, `clip`, `join`, `splitlines`,
+    `partition`/`rpartition` and `expandtabs` never fail: on values of ANY store (reachable or
+    not) the outcome is success — `unbound` only says the script named a variable (or, for
+    `linePiece`/`partPiece`, a position in the result) that does not exist.  With `wf_reachable`
+    this is "no later slice or concatenation raises". -/
 theorem never_fails (σ : Store) (op : Op) (h : neverFails op = true) :
     (σ.step op).2 = .ok ∨ (σ.step op).2 = .unbound :=
   step_total σ op h
 
 example : neverFails (.slice 2 1 (some 1) none) = true ∧ neverFails (.iadd 2 2) = true ∧
     neverFails (.replace 3 1 "b".toList (.inr "x".toList) (-1)) = true ∧
-    neverFails (.index 2 1 0) = false := by decide
+    neverFails (.index 2 1 0) = false ∧ neverFails (.join 4 [1, 2, 1]) = true ∧
+    neverFails (.zfill 6 5 5) = true ∧ neverFails (.clip 9 1 (some 1) none) = true ∧
+    neverFails (.linePiece 9 1 false 0) = true ∧ neverFails (.partPiece 7 4 "ca".toList false 2) = true ∧
+    neverFails (.expandtabs 8 1 4) = true ∧
+    neverFails (.splitPiece 5 4 (some []) (-1) false 0) = false ∧
+    neverFails (.fmatch 4 (.bad true) [(0, 1)] (-1)) = false := by decide
 
 /-- the integer index: success exactly for `-len ≤ i < len`, otherwise `IndexError` -/
 theorem index_outcome (σ : Store) (d src : Var) (i : Int) (x : AStr) (hx : σ.get? src = some x) :
@@ -124,6 +139,65 @@ theorem pad_outcome (σ : Store) (d : Var) (fill : Str) (f : Char → AStr) :
     (fill.length = 1 → (σ.pad1 d fill f).2 = .ok) ∧
     (fill.length ≠ 1 → (σ.pad1 d fill f).2 = .err .valueError) :=
   pad1_outcome σ d fill f
+
+/-- `split`/`rsplit`: an empty separator is the `ValueError` of `str.split`; any other separator
+    (or `None`) cannot fail -/
+theorem split_outcome (σ : Store) (d src : Var) (sep : Option Str) (m : Int) (r : Bool) (j : Nat) :
+    (sep ≠ some [] → ((σ.step (.splitPiece d src sep m r j)).2 = .ok ∨
+      (σ.step (.splitPiece d src sep m r j)).2 = .unbound)) ∧
+    (sep = some [] → (σ.step (.splitPiece d src sep m r j)).2 = .err .valueError ∨
+      (σ.step (.splitPiece d src sep m r j)).2 = .unbound) :=
+  splitPiece_outcome σ d src sep m r j
+
+/-- the convention for a position that does not exist in the result of `split`, `splitlines`,
+    `partition`: outcome `unbound`, store unchanged; a position that exists is written to `dst`
+    with outcome `ok` -/
+theorem splitPiece_range (σ : Store) (d src : Var) (sep : Option Str) (m : Int) (r : Bool) (j : Nat)
+    (x : AStr) (ps : List AStr) (hx : σ.get? src = some x) (hs : x.splitGen sep m r = .ok ps) :
+    (∀ hj : j < ps.length, σ.step (.splitPiece d src sep m r j) = σ.commit d ps[j]) ∧
+    (ps.length ≤ j → σ.step (.splitPiece d src sep m r j) = (σ, .unbound)) := by
+  simp only [Store.step, Store.withVal, hx, hs]
+  constructor
+  · intro hj; rw [List.getElem?_eq_getElem hj]; rfl
+  · intro hj; rw [List.getElem?_eq_none hj]; rfl
+
+theorem linePiece_range (σ : Store) (d src : Var) (ke : Bool) (j : Nat) (x : AStr)
+    (hx : σ.get? src = some x) :
+    (∀ hj : j < (x.splitlines ke).length, σ.step (.linePiece d src ke j) = σ.commit d (x.splitlines ke)[j]) ∧
+    ((x.splitlines ke).length ≤ j → σ.step (.linePiece d src ke j) = (σ, .unbound)) := by
+  simp only [Store.step, Store.withVal, hx]
+  constructor
+  · intro hj; rw [List.getElem?_eq_getElem hj]; rfl
+  · intro hj; rw [List.getElem?_eq_none hj]; rfl
+
+theorem partPiece_range (σ : Store) (d src : Var) (sep : Str) (r : Bool) (x : AStr)
+    (hx : σ.get? src = some x) :
+    σ.step (.partPiece d src sep r 0) = σ.commit d (x.partitionGen sep r).1 ∧
+    σ.step (.partPiece d src sep r 1) = σ.commit d (x.partitionGen sep r).2.1 ∧
+    σ.step (.partPiece d src sep r 2) = σ.commit d (x.partitionGen sep r).2.2 ∧
+    ∀ j, 3 ≤ j → σ.step (.partPiece d src sep r j) = (σ, .unbound) := by
+  simp only [Store.step, Store.withVal, hx]
+  refine ⟨rfl, rfl, rfl, fun j hj => ?_⟩
+  rw [List.getElem?_eq_none (by simpa using hj)]; rfl
+
+/-- `format_matching` inside a history (C16 for the store): when it succeeds the receiver keeps its
+    text, and every character outside all the matches that `count` lets through keeps its settings
+    exactly.  (`fmatch` numbers its new objects from the store's counter, see
+    `AStr.formatMatchingFrom`; with the value's own numbering an identity of another variable
+    could be handed out a second time — the last example of section 7 shows it.) -/
+theorem fmatch_spec (σ : Store) (v : Var) (a : SArg) (spans : List (Int × Int)) (count : Int) (x : AStr)
+    (hx : σ.get? v = some x) (hw : WF x) (hok : (σ.step (.fmatch v a spans count)).2 = .ok) :
+    ∃ y, ((σ.step (.fmatch v a spans count)).1).get? v = some y ∧ y.s = x.s ∧ WF y ∧
+      ∀ i : Nat, (∀ se ∈ takeCount count spans,
+        i < sliceIdx x.len (some se.1) 0 ∨ sliceIdx x.len (some se.2) x.len ≤ i) → act y i = act x i := by
+  simp only [Store.step, Store.withVal, hx] at hok ⊢
+  cases hr : x.formatMatchingFrom σ.nid a spans count with
+  | error e => rw [hr] at hok; cases hok
+  | ok y =>
+    obtain ⟨ht, hrest⟩ := formatMatchingFrom_spec x y σ.nid a spans count hr
+    obtain ⟨hwy, hout⟩ := hrest hw
+    refine ⟨y, ?_, ht, hwy, hout⟩
+    simp only [Store.fromExcept, Store.commit, Store.get?_bump, Store.get?_put_eq]
 
 /-- rendering without a format spec (`str(x)`, `to_str()`) never fails -/
 theorem render_plain (σ : Store) (src : Var) (o rs re : Bool) :
@@ -264,6 +338,60 @@ example : ((Store.run {} script2).get? 4).map (·.s) = some "bZbZ".toList ∧
     (((Store.run {} script2).get? 4).map (fun x => replayOk x.fmts)) = some true ∧
     (Store.run {} script2).get? 1 = (Store.run {} script).get? 1 := by decide +kernel
 
+/-- … and the operations added later: `v4 = AnsiString.join(v1, v2, v1)`;
+    `v4.format_matching("c?b", 4)` restricted by the harness to the spans (1,3) and (5,7);
+    `v5 = v4.split("c")[1]`; `v6 = v5.zfill(5)`; `v7 = v4.partition("ca")[2]`;
+    `v4.unformat_matching(…, 4, count=1)`; `v8 = v1.expandtabs(4)`; `v9 = v1.splitlines()[0]`;
+    then `v4.split("")` (`ValueError`), `v1.splitlines()[1]` (no such piece), a `join` with a
+    variable that does not exist, and `v9 = v1.clip(1)`. -/
+def script3 : List Op := script ++
+  [.join 4 [1, 2, 1], .fmatch 4 (.int 4) [(1, 3), (5, 7)] (-1),
+   .splitPiece 5 4 (some "c".toList) (-1) false 1, .zfill 6 5 5, .partPiece 7 4 "ca".toList false 2,
+   .unfmatch 4 (some (.int 4)) [(1, 3), (5, 7)] 1, .expandtabs 8 1 4, .linePiece 9 1 false 0,
+   .splitPiece 9 4 (some []) (-1) false 0, .linePiece 9 1 false 1, .join 9 [1, 77], .clip 9 1 (some 1) none]
+
+example : StoreInv (Store.run {} script3) := wf_reachable _
+
+/-- the outcomes of the twelve added steps: 0 = ok, 1 = an error, 2 = unbound -/
+example : ((script3.foldl (fun (acc : Store × List Nat) op =>
+      ((acc.1.step op).1, acc.2 ++ [match (acc.1.step op).2 with | .ok => 0 | .err _ => 1 | .unbound => 2 | _ => 3]))
+      (({} : Store), [])).2).drop 6 = [0, 0, 0, 0, 0, 0, 0, 0, 1, 2, 2, 0] := by decide +kernel
+
+example : ((Store.run {} script3).get? 4).map (·.s) = some "abcbcbcabc".toList ∧
+    ((Store.run {} script3).get? 5).map (·.s) = some "b".toList ∧
+    ((Store.run {} script3).get? 6).map (·.s) = some "0000b".toList ∧
+    ((Store.run {} script3).get? 7).map (·.s) = some "bc".toList ∧
+    ((Store.run {} script3).get? 8).map (·.s) = some "abc".toList ∧
+    ((Store.run {} script3).get? 9).map (·.s) = some "bc".toList ∧
+    (Store.run {} script3).nid = 8 ∧
+    (Store.run {} script3).get? 1 = (Store.run {} script).get? 1 := by decide +kernel
+
+/-- `v4` at the end: the second match still carries the object 7 made by `fmatch` (the first one, 6,
+    was taken away again by `unfmatch … count=1`) -/
+example : (Store.run {} script3).get? 4 = some
+    { s := "abcbcbcabc".toList
+      fmts := [(0, { add := [⟨2, "31".toList⟩] }), (1, { add := [⟨1, "1".toList⟩] }),
+               (3, { add := [⟨2, "31".toList⟩, ⟨1, "1".toList⟩], rem := [⟨1, "1".toList⟩, ⟨2, "31".toList⟩] }),
+               (5, { add := [⟨2, "31".toList⟩, ⟨1, "1".toList⟩, ⟨7, "4".toList⟩],
+                     rem := [⟨1, "1".toList⟩, ⟨2, "31".toList⟩] }),
+               (7, { add := [⟨2, "31".toList⟩], rem := [⟨1, "1".toList⟩, ⟨2, "31".toList⟩, ⟨7, "4".toList⟩] }),
+               (8, { add := [⟨1, "1".toList⟩] }),
+               (10, { rem := [⟨1, "1".toList⟩, ⟨2, "31".toList⟩] })] } := by
+  decide +kernel
+
+example : ((List.range 10).map (fun v => ((Store.run {} script3).get? v).map (fun x => replayOk x.fmts))) =
+    [none, some true, some true, some true, some true, some true, some true, some true, some true,
+     some true] := by decide +kernel
+
+/-- why `fmatch` takes its identities from the store's counter: `AStr.formatMatching` applied to the
+    value of `v4` right after the `join` numbers its new objects from `v4`'s own `nextId = 3`, and
+    3 is the identity of an object of `v3` with another text ("31", not "4") -/
+example : let σ := Store.run {} (script ++ [.join 4 [1, 2, 1]])
+    ((σ.get? 4).map (fun x => ((x.formatMatching (.int 4) [(1, 3), (5, 7)] (-1)).toOption.map
+      (fun y => y.fmts.settings.filter (fun s => s.id == 3))))) = some (some [⟨3, "4".toList⟩, ⟨3, "4".toList⟩]) ∧
+    ((σ.get? 3).map (fun x => x.fmts.settings.filter (fun s => s.id == 3))) =
+      some [⟨3, "31".toList⟩, ⟨3, "31".toList⟩] := by decide +kernel
+
 /-! hypotheses of the theorems above on this history -/
 
 /-- `inv_step`, `run_inv`: a store satisfying the invariant -/
@@ -277,6 +405,15 @@ example : ∃ x, final.get? 3 = some x ∧ x.len = 9 := ⟨_, rfl, by decide +ke
 example : ∃ x y, final.get? 1 = some x ∧ final.get? 2 = some y ∧
     x.fmts.settings ≠ [] ∧ ∀ s ∈ y.fmts.settings, s ∈ x.fmts.settings :=
   ⟨_, _, rfl, rfl, by decide +kernel, by decide +kernel⟩
+
+/-- `fmatch_spec`, `splitPiece_range`, `linePiece_range`, `partPiece_range`: a bound variable with
+    `WF` (every reachable value has it), a successful `fmatch`, a successful `split` -/
+example : ∃ x, final.get? 2 = some x ∧ WF x := ⟨_, rfl, reachable_wf script 2 _ rfl⟩
+example : raises (final.step (.fmatch 2 (.int 4) [(1, 3)] (-1))).2 .typeError = false ∧
+    (match (final.step (.fmatch 2 (.int 4) [(1, 3)] (-1))).2 with | .ok => true | _ => false) = true := by
+  decide +kernel
+example : ∃ x ps, final.get? 2 = some x ∧ (x.splitGen (some "c".toList) (-1) false).toOption = some ps ∧
+    ps.length = 3 := ⟨_, _, rfl, rfl, by decide +kernel⟩
 
 /-- `error_atomic`: see the failing operations above; `unbound_atomic`: variable 9 does not exist -/
 example : final.get? 9 = none ∧ (5 : Var) ∉ (Op.slice 4 9 none none).writes := by decide +kernel
@@ -304,6 +441,11 @@ end C09
 #print axioms C09.index_outcome
 #print axioms C09.pad_outcome
 #print axioms C09.render_plain
+#print axioms C09.split_outcome
+#print axioms C09.splitPiece_range
+#print axioms C09.linePiece_range
+#print axioms C09.partPiece_range
+#print axioms C09.fmatch_spec
 #print axioms C09.scrub_errors
 #print axioms C09.getIndex_errors
 #print axioms C09.error_atomic
